@@ -1021,10 +1021,32 @@ namespace occa {
       const int tokenCount = (int) lineTokens.size();
       for (int i = 0; i < tokenCount; ++i) {
         token_t *token = lineTokens[i];
+        if (token->type() & tokenType::primitive) {
+          // The preprocessor computes in [u]intmax_t: integers are
+          //   unsigned only with a u suffix or when too large for intmax_t
+          primitiveToken &pToken = token->to<primitiveToken>();
+          primitive &value = pToken.value;
+          if (value.isBool() || value.isInteger()) {
+            const std::string &str = pToken.strValue;
+            const bool hasUnsignedSuffix = (
+              (str.find('u') != std::string::npos) ||
+              (str.find('U') != std::string::npos)
+            );
+            const std::string source = value.source;
+            if (hasUnsignedSuffix ||
+                (value.type & primitiveType::uint64_)) {
+              value = value.to<uint64_t>();
+            } else {
+              value = value.to<int64_t>();
+            }
+            value.source = source;
+          }
+          continue;
+        }
         if (!(token->type() & tokenType::identifier)) {
           continue;
         }
-        lineTokens[i] = new primitiveToken(token->origin, 0, "0");
+        lineTokens[i] = new primitiveToken(token->origin, (int64_t) 0, "0");
         delete token;
       }
 
